@@ -29,9 +29,19 @@ def _daily_data(which):
     import opendsm.eemeter as em
     from opendsm.eemeter.samples import load_sample
     from opendsm.eemeter.common.transform import get_baseline_data
+    if which == "SEASONAL":
+        # a synthetic meter whose usage has a summer regime: the selected model is a season-only split (several sub-models)
+        import bounded.C12_fits as F
+        case = {"name": "seasonal", "base": 20, "heat_slope": 1.2, "cool_slope": 0.9, "heat_bp": 50, "cool_bp": 68, "summer": 1.8, "n_days": 365, "seed": 11, "family": "daily"}
+        return em.DailyBaselineData(F.build(case), is_electricity_data=True)
+    scale = 1.0
+    if which.endswith("twin"):
+        which, scale = which[:-4], 1.02          # the same meter with every reading 2 % higher
     sample = {"D1": "il-electricity-cdd-hdd-daily", "D2": "il-gas-hdd-only-daily", "D3": "il-electricity-cdd-only-daily"}[which]
     meter, temp, meta = load_sample(sample)
     bm, _ = get_baseline_data(meter, end=meta["blackout_start_date"], max_days=365)
+    if scale != 1.0:
+        bm = bm * scale
     return em.DailyBaselineData.from_series(bm, temp, is_electricity_data=not sample.startswith("il-gas"))
 
 
@@ -185,6 +195,8 @@ FIT = {
     "daily.D1": {"do": "fit", "family": "daily", "meter": "D1", "settings": None},
     "daily.D2": {"do": "fit", "family": "daily", "meter": "D2", "settings": None},
     "daily.D3.alpha20": {"do": "fit", "family": "daily", "meter": "D3", "settings": {"uncertainty_alpha": 0.2}},
+    "daily.D1twin.alpha05": {"do": "fit", "family": "daily", "meter": "D1twin", "settings": {"uncertainty_alpha": 0.05}},
+    "daily.seasonal": {"do": "fit", "family": "daily", "meter": "SEASONAL", "settings": None},
     "billing": {"do": "fit", "family": "billing", "settings": None},
     "hourly.H1.seed7": {"do": "fit", "family": "hourly", "meter": "H1", "settings": {"seed": 7}},
     "hourly.H1.seed0": {"do": "fit", "family": "hourly", "meter": "H1", "settings": {"seed": 0}},
@@ -221,8 +233,12 @@ def plans(tier):
                             [{"uncertainty_alpha": 0.2}, None, {"uncertainty_alpha": 0.3}, None, {"uncertainty_alpha": 0.05}]]):
         P[f"warm.batch{j + 2}"] = ([{"do": "garbage", "n": 1000 * (j + 1)}, {"do": "batch", "meter": "D1", "settings_list": sl, "record": "daily.D1.alpha05"}], None)
     # str hashing differs between processes (PYTHONHASHSEED): anything iterating a set of names in hash order shows here
-    P["hashseed.a"] = ([rec("caltrack"), rec("hourly.H1.seed7")], {"PYTHONHASHSEED": "0"})
-    P["hashseed.b"] = ([{"do": "rng", "seed": 3}, rec("hourly.H1.seed7"), rec("caltrack")], {"PYTHONHASHSEED": "12345"})
+    P["hashseed.a"] = ([rec("caltrack"), rec("hourly.H1.seed7"), rec("daily.seasonal")], {"PYTHONHASHSEED": "0"})
+    P["hashseed.b"] = ([{"do": "rng", "seed": 3}, rec("hourly.H1.seed7"), rec("caltrack"), rec("daily.seasonal")], {"PYTHONHASHSEED": "12345"})
+    P["hashseed.c"] = ([rec("daily.seasonal")], {"PYTHONHASHSEED": "1"})
+    P["hashseed.d"] = ([rec("daily.seasonal")], {"PYTHONHASHSEED": "3"})
+    # the same meter with slightly different readings fitted first (anything keyed on rounded quantities is then already there)
+    P["warm.twin"] = ([noise("daily.D1twin.alpha05"), rec("daily.D1.alpha05")], None)
     P["threads.hourly"] = ([rec("hourly.H1.seed7"), rec("hourly.H1.seed0")], {"OMP_NUM_THREADS": "4", "MKL_NUM_THREADS": "4", "OPENBLAS_NUM_THREADS": "4"})
     if tier == "thorough":
         P["fresh.daily.default"] = ([rec("daily.D1")], None)
